@@ -116,6 +116,13 @@ fn gen(g: &mut G) -> Plan {
         5 => vec!["identity".into(), "chunked".into()],
         _ => vec![" chunked ".trim().to_string()],
     };
+    // (no draw) HTAB is optional whitespace too: around the value and around the members of a list
+    let te: Vec<String> = if !te.is_empty() && n % 4 == 3 {
+        g.probe("transfer-encoding-with-htab-as-whitespace");
+        te.iter().enumerate().map(|(i, t)| match (n / 4 + i) % 3 { 0 => format!("\t{}", t), 1 => format!("{}\t", t), _ => t.replace(", ", ",\t") }).collect()
+    } else {
+        te
+    };
     let chunked = !te.is_empty();
     if chunked && ncl > 0 && cl_valid && !cl_debatable && cl_nums.len() == ncl && cl_nums.windows(2).all(|w| w[0] == w[1]) && n % 2 == 0 {
         // (no draw) a well-formed Content-Length next to chunked that says something else than the chunked
